@@ -144,7 +144,7 @@ fn within_bounds(cfg: &SpaceCfg, d: &Dump) -> bool {
 }
 
 /// multi-entry operations whose failure may leave a hash-order dependent partial result
-fn order_sensitive(op: &Op) -> bool {
+pub fn order_sensitive(op: &Op) -> bool {
     matches!(op, Op::Copy(..) | Op::CopyB(..) | Op::Chmod(..) | Op::ChmodB(..) | Op::Chown(..) | Op::ChownB(..) | Op::RemoveAll(..))
 }
 
